@@ -132,6 +132,40 @@ pub fn run(a: &Args) {
             }
         }
     }
+    // the other direction, and the round trip the property states: for every existing entry of the
+    // tree a data-modification event of its path names an entry whose `FileSystem::path_of` is
+    // that very path; `path_of` itself is compared with Ref.Watcher.path_of
+    let g_po = cases.group("pathof_cases", "path * entry * path");
+    let mut trip_bad: Vec<String> = vec![];
+    {
+        let fs = assets_manager::source::FileSystem::new(&r1).unwrap();
+        let root = fs.root().to_path_buf();
+        let mut probe = WatcherProbe::new(vec![root.clone()]);
+        let data = notify::EventKind::Modify(notify::event::ModifyKind::Data(notify::event::DataChange::Any));
+        let mut targets: Vec<PathBuf> = files.iter().map(|f| root.join(f)).collect();
+        for d in ["d", "d/e", "d/e/f", "q", "ünï"] {
+            targets.push(root.join(d));
+        }
+        for t in &targets {
+            let got = probe.feed(notify::Event::new(data).add_path(t.clone()));
+            for e in &got {
+                let back = fs.path_of(e.as_dir_entry());
+                cases.push_nt(
+                    g_po,
+                    format!("({}, {}, {})", comps(&root), entry_coq(e), comps(&back)),
+                    format!("{{\"kind\": \"path_of\", \"root\": {:?}, \"entry\": {}, \"path_of\": {:?}}}", root, jstr(&format!("{e:?}")), back),
+                    true,
+                );
+                n += 1;
+                if back != *t && trip_bad.len() < 5 {
+                    trip_bad.push(format!(
+                        "a notification for {t:?} names {e:?}, whose path_of is {back:?}"
+                    ));
+                }
+            }
+            // names the watcher cannot express (dots inside the stem, hidden files) send nothing
+        }
+    }
     // the real watcher (FsWatcherBuilder + inotify): the FIRST notification after the watcher was
     // built already names its entries (single-notification operations: delete, create-empty)
     let mut real_bad: Vec<String> = vec![];
@@ -164,11 +198,14 @@ pub fn run(a: &Args) {
             real_bad.push(format!("real watcher, first operation after start = {op} in d/: directory d listed {before:?} before and still {now:?} 5 s later (expected {expect:?})"));
         }
     }
-    if !real_bad.is_empty() {
-        let f: String = real_bad
+    if !real_bad.is_empty() || !trip_bad.is_empty() {
+        let mut f: String = real_bad
             .iter()
             .map(|v| format!("{{\"engine\": \"watchdiff\", \"kind\": \"monitor\", \"class\": \"first-notification-lost\", \"case\": {{\"observed\": {}}}}}\n", jstr(v)))
             .collect();
+        for v in &trip_bad {
+            f.push_str(&format!("{{\"engine\": \"watchdiff\", \"kind\": \"monitor\", \"class\": \"event-names-another-path\", \"case\": {{\"observed\": {}}}}}\n", jstr(v)));
+        }
         std::fs::write(format!("{}/watchdiff.violations.jsonl", a.out), f).unwrap();
     }
     let _ = std::fs::remove_dir_all(&base);
@@ -177,7 +214,7 @@ pub fn run(a: &Args) {
         &a.out,
         "watchdiff",
         "From AM Require Import Ref.Watcher Corr.WatchCheck.",
-        &[("watch_cases", "watch_check")],
+        &[("watch_cases", "watch_check"), ("pathof_cases", "pathof_check")],
     );
     std::fs::write(
         format!("{}/watchdiff.summary.json", a.out),
